@@ -147,6 +147,14 @@ def gen_coq():
         st = json.loads(out[out.index('{'):])
     except Exception:
         st = {'translator': 'error: ' + out[-2000:]}
+    try:
+        # the AST cache is keyed by the headers' contents: keep the most recent dumps only (each is tens of MB)
+        cdir = os.path.join(BUILD, 'astcache')
+        files = sorted((os.path.join(cdir, f) for f in os.listdir(cdir)), key=os.path.getmtime, reverse=True)
+        for f in files[24:]:
+            os.remove(f)
+    except Exception:
+        pass
     return st
 
 def coq_make(targets, timeout=1800):
